@@ -1,7 +1,7 @@
 import vlib, common
 
-RULE = 'restart: a real RaftNode is closed cleanly after k insertions (k = 0, 1, 4, ... including 0) with a watchdog on Close, reopened on the same data, and continued: versions stay dense and digests equal those of a node never stopped; fsm: clean stop/reopen between incarnations, every outcome compared with the Coq model. Shutdown completing / resources released is decided by the watchdog and the RocksDB assertions of the system library only; hyperb: the hyper tree alone, re-created on the same store at random call boundaries - the three tables after the rebuild, every later root hash and search compared with the batch-level Coq model (hb_reopen)'
-CMDS = ['restart', 'fsm']
+RULE = 'restart: a real RaftNode is closed cleanly after k insertions (k = 0, 1, 4, ... including 0) with a watchdog on Close, reopened on the same data, and continued: versions stay dense and digests equal those of a node never stopped; fsm: clean stop/reopen between incarnations, every outcome compared with the Coq model. Shutdown completing / resources released is decided by the watchdog and the RocksDB assertions of the system library only; server: the real server.Server (API/management servers on real ports, sender, gossip agent, raft, RocksDB) started, used over HTTP, stopped under a watchdog and started again on the same directories, three lives; hyperb: the hyper tree alone, re-created on the same store at random call boundaries - the three tables after the rebuild, every later root hash and search compared with the batch-level Coq model (hb_reopen)'
+CMDS = ['restart', 'fsm', 'server']
 CASES = {'fsm': ('run_fsm_cases', 'C08_restart_invisible (Fsm/Fsm.v life vs consensus/fsm.go)')}
 
 
